@@ -161,7 +161,9 @@ opcodetype GetOpCode(const char* name)
     // expansion
     c(NOP1);
     c(CHECKLOCKTIMEVERIFY);
+    c(NOP2);
     c(CHECKSEQUENCEVERIFY);
+    c(NOP3);
     c(NOP4);
     c(NOP5);
     c(NOP6);
